@@ -490,4 +490,7 @@ def families(tier, seed):
         expect=("pixels-are-round(box*px/res)", "given-pixels-returned", "resolution-is-box*px/pixels", "resolution-cutoff-equals-pixel-cutoff",
                 "pixel-size-does-not-change-a-pixel-cutoff", "resolution-hard-gain-at-round(box*px/res)", "highpass-is-complement-of-lowpass",
                 "bandpass-is-difference-of-lowpasses")))
+    from ..engine import with_array_layouts
+    fams.append(with_array_layouts(fams[0], select=lambda c: tuple(c[0]) == (9, 8, 11) and c[1] == 2,
+                                   expect=("wave-is-eigenfunction", "highpass-is-complement-of-lowpass")))   # waves, one box and cutoff
     return fams
